@@ -278,6 +278,9 @@ def check_routing(ctx):
         q = f.qualname
         cfg = cfg_of(f.node)
         param = f.node.args.args[2].arg
+        spawns = [c for c in calls_in(f.node) if (call_name(c) or "") in ("threading.Thread", "threading.Timer", "Thread", "Timer") or (call_name(c) or "").endswith(("executor.submit", "_thread.start_new_thread"))]
+        ctx.ob("C06.P2", q, not spawns, "inbound messages are handled on the dispatcher thread" if not spawns else
+               f"`{norm(spawns[0])[:90]}` hands an inbound message to a new thread: handlers of consecutive messages run concurrently and can finish out of order", key="no-spawn", where=f.where)
         routes = c05._routing_nodes(cfg)
         fires = [n for n in cfg.real_nodes() if any(c.endswith("events.fire") for c in n.call_names()) and "message_received" in n.text()]
         ctx.require(len(routes) == 1 and len(fires) == 1, f"{q}: expected one routing and one message_received statement (found {len(routes)}/{len(fires)})")
